@@ -1,7 +1,7 @@
 """C02 Reported error estimate is honest; full_output record is self-consistent (second sentence only)."""
 from ..srcmodel import AnalysisError
 from ..ndarr import Arr, InterpRaise
-from ..dv import DV, IdxAny, tags_of
+from ..dv import DV, IdxAny, tags_of, NONZERO_STEPS
 from ..dvrun import explore, bicomplex_aware, StepGenModel, tensor_f
 
 RULES = {
@@ -135,7 +135,7 @@ def one(ctx, core, cls, kw, xshape, fshape, rshape, nsteps=9, late=False):
         else:
             d = C(f, step=gen, full_output=True, **kw)
         return d(x)
-    ex = explore(ctx.repo, body, pinned={'(np.abs(step) > 0).all()': True})
+    ex = explore(ctx.repo, body, pinned=NONZERO_STEPS)
     construct = 'core.%s.__call__' % cls
     where = core.relpath
     for decisions, res, exc in ex.paths:
